@@ -1190,6 +1190,10 @@ def _lower(ex, fn, args, kw, node):
     r = f(s.t)
     ex.assume(f(r) == r)     # idempotent
     ex.assume(z3.Length(r) == z3.Length(s.t))
+    # ASCII text without letters of the other case is a fixed point
+    other = z3.Range('A', 'Z') if which in ('lower', 'casefold') else z3.Range('a', 'z')
+    fixed = z3.Star(z3.Diff(z3.Range(chr(0), chr(127)), other))
+    ex.assume(z3.Implies(z3.InRe(s.t, fixed), r == s.t))
     ex.used_assumptions.add('A-BUILTIN: str.lower/upper uninterpreted, idempotent, length-preserving (ASCII/BMP simple case mapping)')
     return VStr(r)
 
